@@ -4,6 +4,7 @@ import (
 	"bytes"
 	"fmt"
 	"os"
+	"sort"
 	"time"
 
 	"github.com/KevoDB/kevo/pkg/common/iterator"
@@ -38,9 +39,17 @@ func (e *DefaultCompactionExecutor) CompactFiles(task *CompactionTask) ([]string
 	// Create a merged iterator over all input files
 	var iterators []iterator.Iterator
 
-	// Add iterators from both levels
+	// Add iterators from all input levels. The merged iterator gives
+	// precedence to the sources that come first, so they must be listed from
+	// the newest data to the oldest: shallower levels before deeper ones and,
+	// within a level, the most recently created file first.
 	for level := 0; level <= task.TargetLevel; level++ {
-		for _, file := range task.InputFiles[level] {
+		files := make([]*SSTableInfo, len(task.InputFiles[level]))
+		copy(files, task.InputFiles[level])
+		sort.SliceStable(files, func(i, j int) bool {
+			return files[j].olderThan(files[i])
+		})
+		for _, file := range files {
 			// We need an iterator that preserves delete markers
 			if file.Reader != nil {
 				iterators = append(iterators, file.Reader.NewIterator())
